@@ -7,13 +7,34 @@ From Anydb Require Import Common.Base Gen.Consts Gen.Sizes Conc.SvSteps Conc.SvP
 
 (* raw format: full property — every completed read returned the value pushed at that index, lengths seen by
    one reader never decrease, no read panics, and write() never fails; any number of readers, any batch
-   sizes, any number of write() calls, any fresh answers of the allocator *)
+   sizes, any number of write() calls, any fresh answers of the allocator, any number of interleaved writes of the
+   same thread to other regions placed in fresh extents (LWOther) *)
 Theorem C09_raw_prefix :
   SHARED_LEN_LOAD_ACQUIRE = true -> SHARED_LEN_STORE_RELEASE = true ->
   forall st0 rv fl s, rs_init_ok st0 rv fl -> rs_reach (rs_init st0 rv fl) s ->
   c09_good (rs_hist s) (rs_log s) /\ rs_w s <> WFailed.
 Proof. exact raw_prefix. Qed.
 Print Assumptions C09_raw_prefix.
+
+(* frame: the writer thread may write to OTHER vectors of the database between two write() calls of this one
+   (steps LWOther / KOther, part of rs_reach / cs_reach above); a placement that passes the freshness guard
+   changes no byte of this vector's current extent nor of any extent it vacated, and nothing but the memory map *)
+Theorem C09_raw_other_write_frame :
+  forall s ns nr s', rs_step s (LWOther ns nr) = Some s' ->
+  (forall a, own_bytes s a -> rs_mem s' a = rs_mem s a) /\
+  rs_reg s' = rs_reg s /\ rs_retired s' = rs_retired s /\ rs_slen s' = rs_slen s /\ rs_hist s' = rs_hist s /\
+  rs_log s' = rs_log s /\ rs_flen s' = rs_flen s /\ (forall r, rs_rd s' r = rs_rd s r).
+Proof. exact other_write_frame. Qed.
+Print Assumptions C09_raw_other_write_frame.
+
+Theorem C09_comp_other_write_frame :
+  forall s ns nr s', cs_step s (KOther ns nr) = Some s' ->
+  (forall a, cs_own_bytes s a -> cs_mem s' a = cs_mem s a) /\
+  cs_reg s' = cs_reg s /\ cs_retired s' = cs_retired s /\ cs_slen s' = cs_slen s /\ cs_hist s' = cs_hist s /\
+  cs_pages s' = cs_pages s /\ cs_blobs s' = cs_blobs s /\ cs_log s' = cs_log s /\ cs_flen s' = cs_flen s /\
+  (forall r, cs_rd s' r = cs_rd s r).
+Proof. exact cs_other_write_frame. Qed.
+Print Assumptions C09_comp_other_write_frame.
 
 (* compressed format: the full statement is REFUTED by the faithful model (in-place rewrite of the partial
    last page before the pages lock is taken) *)
